@@ -59,6 +59,130 @@ _REDIRECT_SCHEME = "        scheme = self.url_scheme or \"http\"\n"
 _ALIAS_BUILD_ARGS = "            endpoint, values, method, append_unknown=False, force_external=True\n"
 _PREFIX = "        scheme = f\"{url_scheme}:\" if url_scheme else \"\"\n"
 
+# ---- round 3: the rule loop of MapAdapter._partial_build / the values normalisation of MapAdapter.build restructured
+_RULE_LOOP = (
+    "        first_match = None\n"
+    "\n"
+    "        for rule in self.map._rules_by_endpoint.get(endpoint, ()):\n"
+    "            if rule.suitable_for(values, method):\n"
+    "                build_rv = rule.build(values, append_unknown)\n"
+    "\n"
+    "                if build_rv is not None:\n"
+    "                    rv = (build_rv[0], build_rv[1], rule.websocket)\n"
+    "                    if self.map.host_matching:\n"
+    "                        if rv[0] == self.server_name:\n"
+    "                            return rv\n"
+    "                        elif first_match is None:\n"
+    "                            first_match = rv\n"
+    "                    else:\n"
+    "                        return rv\n"
+    "\n"
+    "        return first_match\n"
+)
+_DEF_BUILD = "    def build(\n        self,\n        endpoint: t.Any,\n        values: t.Mapping[str, t.Any] | None = None,\n"
+_UNPACK_RV = "        domain_part, path, websocket = rv\n        host = self.get_host(domain_part)\n"
+_ALIAS_BUILD = "        url = self.build(\n" + _ALIAS_BUILD_ARGS + "        )\n"
+_VALUES_NORM = (
+    "        if values:\n"
+    "            if isinstance(values, MultiDict):\n"
+    "                values = {\n"
+    "                    k: (v[0] if len(v) == 1 else v)\n"
+    "                    for k, v in dict.items(values)\n"
+    "                    if len(v) != 0\n"
+    "                }\n"
+    "            else:  # plain dict\n"
+    "                values = {k: v for k, v in values.items() if v is not None}\n"
+    "        else:\n"
+    "            values = {}\n"
+)
+_EXTERNAL_URL = "        return f\"{scheme}//{host}{self.script_name[:-1]}/{path.lstrip('/')}\""
+_MODULE_RAISER = "def _redirect_to(url):\n    raise RequestRedirect(url)\n\n\n"
+
+
+def _candidate_list(elem: str) -> str:
+    """the rule loop collecting every candidate in a list (append), the choice made afterwards."""
+    return (
+        "        candidates = []\n"
+        "\n"
+        "        for rule in self.map._rules_by_endpoint.get(endpoint, ()):\n"
+        "            if not rule.suitable_for(values, method):\n"
+        "                continue\n"
+        "            build_rv = rule.build(values, append_unknown)\n"
+        "            if build_rv is not None:\n"
+        "                candidates.append(" + elem + ")\n"
+        "\n"
+        "        if not candidates:\n"
+        "            return None\n"
+        "        if self.map.host_matching:\n"
+        "            for rv in candidates:\n"
+        "                if rv[0] == self.server_name:\n"
+        "                    return rv\n"
+        "        return candidates[0]\n"
+    )
+
+
+def _generator_helper(yielded: str, pick: str) -> list:
+    """the rule loop as a generator method; the caller picks with `pick`."""
+    return [
+        (M, _RULE_LOOP, pick),
+        (M, _DEF_BUILD,
+         "    def _built_candidates(self, endpoint, values, method, append_unknown):\n"
+         "        for rule in self.map._rules_by_endpoint.get(endpoint, ()):\n"
+         "            if rule.suitable_for(values, method):\n"
+         "                build_rv = rule.build(values, append_unknown)\n"
+         "                if build_rv is not None:\n"
+         "                    yield " + yielded + "\n"
+         "\n" + _DEF_BUILD),
+    ]
+
+
+_PICK_SENTINEL_LOOP = (
+    "        found = self._built_candidates(endpoint, values, method, append_unknown)\n"
+    "        first_match = None\n"
+    "        for rv in iter(lambda: next(found, None), None):\n"
+    "            if not self.map.host_matching or rv[0] == self.server_name:\n"
+    "                return rv\n"
+    "            if first_match is None:\n"
+    "                first_match = rv\n"
+    "        return first_match\n"
+)
+_PICK_LIST_OF_GENERATOR = (
+    "        found = list(self._built_candidates(endpoint, values, method, append_unknown))\n"
+    "        if self.map.host_matching:\n"
+    "            found = [c for c in found if c[0] == self.server_name] + found\n"
+    "        return found[0] if found else None\n"
+)
+_STATIC_PICK = (
+    "    @staticmethod\n"
+    "    def _pick(candidates, wanted):\n"
+    "        first = None\n"
+    "        for domain, path, ws in candidates:\n"
+    "            if wanted is None or domain == wanted:\n"
+    "                return %s\n"
+    "            if first is None:\n"
+    "                first = (domain, path, ws)\n"
+    "        return first\n"
+    "\n"
+)
+_PICK_BY_STATIC_HELPER = (
+    "        wanted = self.server_name if self.map.host_matching else None\n"
+    "        return self._pick(self._built_candidates(endpoint, values, method, append_unknown), wanted)\n"
+)
+_MODULE_CLEAN = (
+    "def _clean_values(values):\n"
+    "    if not values:\n"
+    "        return {}\n"
+    "    cleaned = {}\n"
+    "    if isinstance(values, MultiDict):\n"
+    "        for k, v in dict.items(values):\n"
+    "            if len(v) != 0:\n"
+    "                cleaned[k] = v[0] if len(v) == 1 else v\n"
+    "    else:\n"
+    "        cleaned.update((k, v) for k, v in values.items() if v is not None)\n"
+    "    return cleaned\n"
+    "\n\n"
+)
+
 MUTANTS = [
     # R12.1 ----------------------------------------------------------------
     {"name": "redirect-path-keeps-leading-slashes", "expect": "R12.1", "edits": [(M, _PATH_JOIN, '        path = "/".join((self.script_name.strip("/"), path_info))')]},
@@ -174,6 +298,22 @@ MUTANTS = [
     {"name": "secure-flag-from-the-argument-in-a-conditional-expression", "expect": "R12.8", "edits": [(M, _FALLBACK, ""), (M, _SECURE,
         "        secure = url_scheme in {\"https\", \"wss\"}\n"
         "        url_scheme = self.url_scheme if url_scheme is None else url_scheme\n")]},
+    # round 3 (R12.1 / R12.8 through generator helpers, next(), lists, keyed records, ** tables, static helpers) ----
+    {"name": "candidate-list-host-from-the-matched-values", "expect": "R12.1", "edits": [(M, _RULE_LOOP, _candidate_list("(values.get(\"subdomain\") or build_rv[0], build_rv[1], rule.websocket)"))]},
+    {"name": "generator-helper-yields-path-in-the-domain-position", "expect": "R12.1", "edits": _generator_helper("build_rv[1], build_rv[0], rule.websocket", _PICK_SENTINEL_LOOP)},
+    {"name": "list-of-generator-host-from-the-built-path", "expect": "R12.1", "edits": _generator_helper("build_rv[1].partition(\"/\")[0] or build_rv[0], build_rv[1], rule.websocket", _PICK_LIST_OF_GENERATOR)},
+    {"name": "static-pick-helper-returns-path-as-domain", "expect": "R12.1", "edits": _generator_helper("build_rv[0], build_rv[1], rule.websocket", _PICK_BY_STATIC_HELPER) + [(M, _DEF_BUILD, _STATIC_PICK % "(path, path, ws)" + _DEF_BUILD)]},
+    {"name": "built-record-host-read-from-the-path-key", "expect": "R12.1", "edits": [(M, _UNPACK_RV,
+        "        built = {\"domain\": rv[0], \"path\": rv[1], \"websocket\": rv[2]}\n        path, websocket = built[\"path\"], built[\"websocket\"]\n        host = self.get_host(built.get(\"path\"))\n")]},
+    {"name": "alias-build-options-table-forces-http", "expect": "R12.8", "edits": [(M, _ALIAS_BUILD,
+        "        options = {\"append_unknown\": False, \"force_external\": True, \"url_scheme\": \"http\"}\n        url = self.build(endpoint, values, method, **options)\n")]},
+    {"name": "external-url-root-attribute-followed-by-the-unstripped-path", "expect": "R12.1", "edits": [(M, _EXTERNAL_URL, "        return f\"{scheme}//{host}{self.script_name}{path}\"")]},
+    {"name": "external-url-rest-local-not-stripped", "expect": "R12.1", "edits": [(M, _EXTERNAL_URL, "        rest = path\n        root = self.script_name[:-1]\n        return f\"{scheme}//{host}{root}/{rest}\"")]},
+    {"name": "redirect-url-helper-joins-the-request-path-with-urljoin", "expect": "R12.1", "edits": [(M, _PATH_JOIN + "\n        return urlunsplit((scheme, host, path, query_str, None))",
+        "        root = urlunsplit((scheme, host, self.script_name, None, None))\n        url = urljoin(root, path_info.lstrip(\"/\"))\n        return f\"{url}?{query_str}\" if query_str else url")]},
+    {"name": "module-level-raiser-given-the-bare-path", "expect": "R12.1", "edits": [(M, _SLASH_SITE, "            _redirect_to(new_path)"), (M, "class MapAdapter:\n", _MODULE_RAISER + "class MapAdapter:\n")]},
+    {"name": "alias-build-arguments-table-puts-values-in-the-scheme", "expect": "R12.1", "edits": [(M, _ALIAS_BUILD,
+        "        options = {\"append_unknown\": False, \"force_external\": True, \"url_scheme\": values.get(\"scheme\")}\n        url = self.build(endpoint, values, method, **options)\n")]},
 ]
 
 TWINS = [
@@ -327,4 +467,41 @@ TWINS = [
     {"name": "alias-redirect-passes-the-bound-scheme-explicitly-through-a-local", "edits": [(M,
         "        url = self.build(\n" + _ALIAS_BUILD_ARGS + "        )\n",
         "        bound = self.url_scheme\n        url = self.build(\n            endpoint, values, method, append_unknown=False, force_external=True, url_scheme=bound\n        )\n")]},
+    # round 3 ------------------------------------------------------------------
+    {"name": "partial-build-candidates-collected-in-a-list", "edits": [(M, _RULE_LOOP, _candidate_list("(build_rv[0], build_rv[1], rule.websocket)"))]},
+    {"name": "partial-build-generator-helper-drained-by-iter-sentinel", "edits": _generator_helper("build_rv[0], build_rv[1], rule.websocket", _PICK_SENTINEL_LOOP)},
+    {"name": "partial-build-generator-helper-listed-and-filtered", "edits": _generator_helper("(build_rv[0], build_rv[1], rule.websocket)", _PICK_LIST_OF_GENERATOR)},
+    {"name": "partial-build-choice-in-a-static-helper-fed-by-a-generator", "edits": _generator_helper("build_rv[0], build_rv[1], rule.websocket", _PICK_BY_STATIC_HELPER) + [(M, _DEF_BUILD, _STATIC_PICK % "(domain, path, ws)" + _DEF_BUILD)]},
+    {"name": "partial-build-generator-expression-and-next", "edits": [(M, _RULE_LOOP,
+        "        built = (\n"
+        "            (r.build(values, append_unknown), r.websocket)\n"
+        "            for r in self.map._rules_by_endpoint.get(endpoint, ())\n"
+        "            if r.suitable_for(values, method)\n"
+        "        )\n"
+        "        found = ((b[0], b[1], ws) for b, ws in built if b is not None)\n"
+        "        first_match = next(found, None)\n"
+        "        if first_match is None or not self.map.host_matching:\n"
+        "            return first_match\n"
+        "        if first_match[0] == self.server_name:\n"
+        "            return first_match\n"
+        "        return next((rv for rv in found if rv[0] == self.server_name), first_match)\n")]},
+    {"name": "build-result-kept-in-a-keyed-record", "edits": [(M, _UNPACK_RV,
+        "        built = {\"domain\": rv[0], \"path\": rv[1], \"websocket\": rv[2]}\n        path, websocket = built[\"path\"], built[\"websocket\"]\n        host = self.get_host(built.get(\"domain\"))\n")]},
+    {"name": "build-result-record-made-by-dict-keywords", "edits": [(M, _UNPACK_RV,
+        "        built = dict(domain=rv[0], path=rv[1], websocket=rv[2])\n        path = built[\"path\"]\n        websocket = built[\"websocket\"]\n        host = self.get_host(built[\"domain\"])\n")]},
+    {"name": "external-url-root-attribute-followed-directly-by-the-stripped-path", "edits": [(M, _EXTERNAL_URL, "        return f\"{scheme}//{host}{self.script_name}{path.lstrip('/')}\"")]},
+    {"name": "external-url-root-and-rest-in-locals", "edits": [(M, _EXTERNAL_URL, "        rest = path.lstrip('/')\n        root = self.script_name[:-1]\n        return f\"{scheme}//{host}{root}/{rest}\"")]},
+    {"name": "slash-redirect-raised-by-a-module-level-helper", "edits": [(M, _SLASH_SITE, "            _redirect_to(self.make_redirect_url(new_path, query_args))"), (M, "class MapAdapter:\n", _MODULE_RAISER + "class MapAdapter:\n")]},
+    {"name": "alias-build-options-from-a-table", "edits": [(M, _ALIAS_BUILD,
+        "        options = {\"append_unknown\": False, \"force_external\": True}\n        url = self.build(endpoint, values, method, **options)\n")]},
+    {"name": "alias-build-positional-arguments-from-a-tuple", "edits": [(M, _ALIAS_BUILD,
+        "        call_args = (endpoint, values, method)\n        url = self.build(*call_args, append_unknown=False, force_external=True)\n")]},
+    {"name": "build-values-normalised-by-a-module-level-helper-filling-a-dict", "edits": [
+        (M, _VALUES_NORM, "        values = _clean_values(values)\n"),
+        (M, "class MapAdapter:\n", _MODULE_CLEAN + "class MapAdapter:\n"),
+    ]},
+    {"name": "build-values-normalised-by-a-static-helper-called-through-the-class", "edits": [
+        (M, _VALUES_NORM, "        values = MapAdapter._clean_values(values)\n"),
+        (M, _DEF_BUILD, "    @staticmethod\n" + "".join("    " + ln + "\n" for ln in _MODULE_CLEAN.rstrip("\n").split("\n")) + "\n" + _DEF_BUILD),
+    ]},
 ]
